@@ -92,6 +92,23 @@ def candLe (k₁ : Nat) (e₁ : Bool) (k₂ : Nat) (e₂ : Bool) : Prop :=
 def advanceBy (width : Nat → Nat) (st : LState σ) (k : Nat) : LState σ :=
   { st with iter := st.iter.drop k, curEnd := (st.iter.take k).foldl (Loc.advance width) st.curEnd }
 
+/-- Number of characters the scan reads through `goto` transitions before it stops (the viable
+prefix read inside states that still have successors). -/
+def gotoLen (d : DFA Trans) : Nat → List Nat → Nat
+  | _, [] => 0
+  | s, c :: rest =>
+    match lookupTrans (d.st s) c with
+    | some (.goto t) => gotoLen d t rest + 1
+    | _ => 0
+
+/-- Actions that do not look at the matched text (`match_()`). -/
+def IgnoresText (acts : Nat → Action σ τ ε) : Prop :=
+  ∀ a v t, (acts a).run v = (acts a).run { v with text := t }
+
+/-- number of items (tokens and errors) in a list of `next()` results -/
+def itemCount (l : List (Option (Option (Item τ ε)))) : Nat :=
+  (l.filter fun x => match x with | some (some _) => true | _ => false).length
+
 /-! ## Positions -/
 
 /-- Location of character index `n` of `input`: what scanning from the beginning gives. -/
